@@ -1742,3 +1742,6 @@ M("c04-marker-group-seeded-unconditionally", ["C04"], {"C04": ["R04.7"]}, "backe
 		}""", """		if prefix.Match(page.Marker, &match) && match.CommonPrefix {
 			lastMatchedPart = ""
 		}""")
+
+# ---------------------------------------------------------------- F27
+REVERT("f27-revert-upload-listing-lookahead", ["C14"], {"C14": ["R14.8"]}, "0021-fix-a-multipart-upload-listing-is-truncated-while-un.patch")
